@@ -63,14 +63,21 @@ theorem commentDef_sound (i c r : In) (h : commentDef i = .ok c r) : commentOK c
     simp only [PR.ok.injEq] at h
     obtain ⟨rfl, _⟩ := h
     simp only [commentOK, Bool.and_eq_true, Bool.not_eq_true']
-    constructor
-    · -- no line break inside
-      rw [List.contains_eq_any_beq, List.any_eq_false]
+    have hmem : ∀ x ∈ (t.dropWhile (fun c => c == 32 || c == 9)).takeWhile (fun x => x != 10 && x != 13), x ≠ 10 ∧ x ≠ 13 := by
       intro x hx
       have := mem_takeWhile' _ _ x hx
-      simp only [bne_iff_ne, ne_eq] at this
+      simpa only [Bool.and_eq_true, bne_iff_ne, ne_eq] using this
+    refine ⟨⟨?_, ?_⟩, ?_⟩
+    · -- no line feed inside
+      rw [List.contains_eq_any_beq, List.any_eq_false]
+      intro x hx
       simp only [beq_iff_eq]
-      exact fun e => this e.symm
+      exact fun e => (hmem x hx).1 e.symm
+    · -- no carriage return inside
+      rw [List.contains_eq_any_beq, List.any_eq_false]
+      intro x hx
+      simp only [beq_iff_eq]
+      exact fun e => (hmem x hx).2 e.symm
     · -- no leading blank
       generalize hd : t.dropWhile (fun c => c == 32 || c == 9) = d
       cases d with
@@ -79,7 +86,7 @@ theorem commentDef_sound (i c r : In) (h : commentDef i = .ok c r) : commentOK c
         have ha : ¬ ((a == 32 || a == 9) = true) := by
           have := head_dropWhile' (fun c => c == 32 || c == 9) t a b hd
           simp [this]
-        by_cases hn : (a != 10) = true
+        by_cases hn : (a != 10 && a != 13) = true
         · simp only [List.takeWhile_cons, hn, if_true]
           simp only [Bool.or_eq_true, beq_iff_eq, not_or] at ha
           split <;> simp_all
